@@ -49,6 +49,12 @@ enum SigT {
     Object,
     Bool,
     Null,
+    /// array[array[number]]
+    ArrayArrayNumber,
+    /// array[number] | string
+    ArrNumOrStr,
+    /// array[number|string]
+    ArrayOfNumOrStr,
 }
 
 const SIGTS: &[SigT] = &[
@@ -62,6 +68,9 @@ const SIGTS: &[SigT] = &[
     SigT::Object,
     SigT::Bool,
     SigT::Null,
+    SigT::ArrayArrayNumber,
+    SigT::ArrNumOrStr,
+    SigT::ArrayOfNumOrStr,
 ];
 
 impl SigT {
@@ -77,6 +86,9 @@ impl SigT {
             SigT::Object => "object",
             SigT::Bool => "boolean",
             SigT::Null => "null",
+            SigT::ArrayArrayNumber => "array[array[number]]",
+            SigT::ArrNumOrStr => "array[number]|string",
+            SigT::ArrayOfNumOrStr => "array[number|string]",
         }
     }
     fn from_name(s: &str) -> Option<SigT> {
@@ -94,6 +106,17 @@ impl SigT {
             SigT::Object => ArgumentType::Object,
             SigT::Bool => ArgumentType::Bool,
             SigT::Null => ArgumentType::Null,
+            SigT::ArrayArrayNumber => ArgumentType::TypedArray(Box::new(ArgumentType::TypedArray(Box::new(
+                ArgumentType::Number,
+            )))),
+            SigT::ArrNumOrStr => ArgumentType::Union(vec![
+                ArgumentType::TypedArray(Box::new(ArgumentType::Number)),
+                ArgumentType::String,
+            ]),
+            SigT::ArrayOfNumOrStr => ArgumentType::TypedArray(Box::new(ArgumentType::Union(vec![
+                ArgumentType::Number,
+                ArgumentType::String,
+            ]))),
         }
     }
     /// The reference model's own notion of "argument satisfies type".
@@ -112,6 +135,15 @@ impl SigT {
             SigT::Object => matches!(v, Variable::Object(_)),
             SigT::Bool => matches!(v, Variable::Bool(_)),
             SigT::Null => matches!(v, Variable::Null),
+            SigT::ArrayArrayNumber => match v {
+                Variable::Array(a) => a.iter().all(|x| SigT::ArrayNumber.accepts(x)),
+                _ => false,
+            },
+            SigT::ArrNumOrStr => SigT::ArrayNumber.accepts(v) || SigT::String.accepts(v),
+            SigT::ArrayOfNumOrStr => match v {
+                Variable::Array(a) => a.iter().all(|x| SigT::NumOrStr.accepts(x)),
+                _ => false,
+            },
         }
     }
 }
@@ -607,6 +639,9 @@ fn gen_sig(r: &mut Rng) -> Sig {
         SigT::ArrayNumber,
         SigT::NumOrStr,
         SigT::Object,
+        SigT::ArrayArrayNumber,
+        SigT::ArrNumOrStr,
+        SigT::ArrayOfNumOrStr,
     ];
     Sig {
         inputs: (0..n).map(|_| r.pick(&pool).clone()).collect(),
@@ -625,12 +660,16 @@ fn gen_arg(r: &mut Rng, depth: u32, names: &[&str]) -> String {
     match r.below(13) {
         0 => "@".into(),
         1 | 2 => (*r.pick(&["a", "b", "ys", "o", "e", "xs", "k", "n", "missing"])).to_string(),
-        3 => (*r.pick(&["`1`", "`-3`", "`\"lit\"`", "`[1, 2]`", "`null`", "`{\"q\": 1}`", "'raw'", "`2.5`"])).to_string(),
+        3 => (*r.pick(&[
+            "`1`", "`-3`", "`\"lit\"`", "`[1, 2]`", "`null`", "`{\"q\": 1}`", "'raw'", "`2.5`", "`[[1, 2], [3]]`",
+            "`[[1, 2], [3, \"x\"]]`", "`[1, \"s\"]`", "`[[1], 2]`", "`[]`", "`[[]]`", "`[1, null]`",
+        ]))
+        .to_string(),
         4 => format!("&{}", r.pick(&["a", "k", "@", "n", "o.z"])),
         5 if depth > 0 => format!("&{}", gen_call(r, depth - 1, names)),
         6 | 7 if depth > 0 => gen_call(r, depth - 1, names),
         8 => "ys[0]".into(),
-        9 => "o.z".into(),
+        9 => (*r.pick(&["o.z", "a.type(@)", "e.not_null(@, 'x')", "a | `7`", "o.to_array(@)", "b | type(@)", "missing.type(@)"])).to_string(),
         10 => "[a, b]".into(),
         _ => (*r.pick(&["a", "ys", "xs"])).to_string(),
     }
@@ -662,11 +701,14 @@ fn gen_call(r: &mut Rng, depth: u32, names: &[&str]) -> String {
 
 fn gen_call_expr(r: &mut Rng, names: &[&str]) -> String {
     let depth = r.below(3) as u32;
-    match r.below(8) {
+    match r.below(10) {
         0 => format!("xs[*].{}", gen_call(r, depth, names)),
         1 => format!("[{}, {}]", gen_call(r, depth, names), gen_call(r, depth, names)),
         2 => format!("o.{}", gen_call(r, depth, names)),
         3 => format!("ys | {}", gen_call(r, depth, names)),
+        // the current node is null when the call is made
+        4 => format!("e.{}", gen_call(r, depth, names)),
+        5 => format!("missing.{}", gen_call(r, depth, names)),
         _ => gen_call(r, depth, names),
     }
 }
@@ -842,7 +884,9 @@ fn identify(f: &dyn Function, rt: &Runtime, log: &Log, expect_sig: Option<&Sig>)
             SigT::Any | SigT::Number | SigT::NumOrStr => Variable::Number(serde_json::Number::from(-3)),
             SigT::String => Variable::String("p".into()),
             SigT::Expref => Variable::Expref(Ast::Identity { offset: 0 }),
-            SigT::Array | SigT::ArrayNumber => Variable::Array(vec![]),
+            SigT::Array | SigT::ArrayNumber | SigT::ArrayArrayNumber | SigT::ArrNumOrStr | SigT::ArrayOfNumOrStr => {
+                Variable::Array(vec![])
+            }
             SigT::Object => Variable::Object(BTreeMap::new()),
             SigT::Bool => Variable::Bool(true),
             SigT::Null => Variable::Null,
